@@ -45,7 +45,17 @@ class Result:
         for k in self.known:
             print("KNOWN-FINDING: property=%s %s" % (self.pid, k))
         self.coverage.setdefault("tie_broken", self.tie_broken)
-        vlib.write_evidence(self.pid, self.tier, self.seed, self.coverage, self.assumptions, wall, nviol)
+        level = "proof"
+        try:
+            man = json.load(open(os.path.join(VERIF, "MANIFEST.json")))
+            for c in man["checks"]:
+                if c["property_id"] == self.pid:
+                    level = c["level_claimed"]["category"]
+                    if level == "other":
+                        self.coverage.setdefault("explanation", c["level_claimed"]["text"])
+        except Exception:
+            pass
+        vlib.write_evidence(self.pid, self.tier, self.seed, self.coverage, self.assumptions, wall, nviol, level=level)
         if rc == 0:
             print("OK property=%s tier=%s wall=%.1fs" % (self.pid, self.tier, wall))
         return rc
